@@ -29,6 +29,10 @@ pub struct Cmd {
     /// removing other history steps does not change this command's schedule)
     #[serde(default)]
     pub key: Option<u64>,
+    /// `cmd 2>&1 | head`: the reader of the command's output goes away when
+    /// the group's simulation reaches this step
+    #[serde(default)]
+    pub reader_gone_at: Option<u64>,
 }
 
 impl Cmd {
@@ -40,6 +44,7 @@ impl Cmd {
             make_tokens: None,
             start_step: 0,
             key: None,
+            reader_gone_at: None,
         }
     }
     pub fn prog(&self) -> &str {
@@ -644,6 +649,7 @@ fn play_group(
             fds,
             stdout: paths.out().join(format!("g{}c{}.out", idx, k)),
             stderr: paths.out().join(format!("g{}c{}.err", idx, k)),
+            reader_gone_at: c.reader_gone_at,
         };
         sim.spawn(&spec)
     };
